@@ -200,3 +200,187 @@ PROPS["C16"]["extra"].append(extra_parametric_parser)
 PROPS["C16"]["assumptions"] = SCAN_ASSUME + PARSE_ASSUME
 PROPS["C16"]["trusted_base"] = PARSE_TRUSTED
 PROPS["C16"]["explanation"] += " Parser: Parse is proved with no assumption on what earlier calls left in the parser object (only p.stack != nil): Reset yields the one-element stack, nextToken is assigned before it is read, so the step contract makes result, error, expected list and action calls a function of tables, token stream and Context alone."
+
+
+ACTION_CONTRACTS = "{repo}/internal/parser/lr1/action/zz_contracts_verif.go"
+LR1ITEMS_CONTRACTS = "{repo}/internal/parser/lr1/items/zz_contracts_verif.go"
+MAIN_CONTRACTS = "{repo}/zz_contracts_verif.go"
+
+
+def gen_govc(prop):
+    return [
+        {"dir": "{repo}", "pkgs": ["./internal/parser/lr1/action", "./internal/parser/lr1/items"], "contracts": [ACTION_CONTRACTS, LR1ITEMS_CONTRACTS], "prop": prop},
+        {"dir": "{repo}", "pkgs": ["."], "contracts": [MAIN_CONTRACTS], "prop": prop},
+    ]
+
+
+PROPS["C05"] = {
+    "level": "other",
+    "govc": gen_govc("C05")[:1],
+    "trusted_base": COMMON_TRUSTED + ["closed world of implementers of action.Action (Accept, Error, Reduce, Shift): dynamic calls are resolved by case analysis over their contracts"],
+    "assumptions": [
+        "String() methods of the action types are trusted to be free of side effects",
+        "that the rendered table entry is the action computed by ItemSet.Action, and the consequence for the generated parser's verdict and reductions, are checked by the bounded SYN sweep of the LR validator (-a case) together with the run-time contracts of C02",
+    ],
+    "explanation": "Proved for all item sets and all item orders: Shift/Reduce/Error/Accept.ResolveConflict implement 'shift beats reduce, the lower production index beats the higher, no-action is neutral, accept conflicts are refused'; ItemSet.Action returns ERROR when no item proposes an action, a proposed action otherwise, a shift whenever a shift is proposed, else the reduce with the smallest production index (invariants are stated over the set of proposals of the item prefix, not over the fold order).",
+}
+
+PROPS["C04"] = {
+    "level": "other",
+    "govc": gen_govc("C04"),
+    "trusted_base": COMMON_TRUSTED + ["closed world of implementers of action.Action", "os.Exit(code) ends the process with status code mod 256"],
+    "assumptions": [
+        "config.Config accessors, io.WriteFileString, conflictString: trusted to be free of side effects on the data handleConflicts reads",
+        "that the item sets are those of the canonical LR(1) automaton (so that 'two items propose different actions' is 'the grammar is not LR(1)') is the generator's global algorithm, decided by the bounded SYN sweep of the LR validator",
+    ],
+    "explanation": "Proved for all item sets: Item.action is the per-item proposal (accept / reduce on the item's look-ahead / shift on the expected symbol); ItemSet.Action reports conflicts exactly when two items propose different actions and panics exactly on a conflict involving accept; handleConflicts exits exactly when there are conflicts and -a is off, with a status that is non-zero modulo 256, and returns otherwise.",
+}
+
+
+SYMBOLS_CONTRACTS = "{repo}/internal/parser/symbols/zz_contracts_verif.go"
+TOKEN_CONTRACTS = "{repo}/internal/token/zz_contracts_verif.go"
+
+PROPS["C10"] = {
+    "level": "other",
+    "prepare": prepare_expand,
+    "govc": [
+        {"dir": "{repo}", "pkgs": ["./internal/parser/symbols"], "contracts": [SYMBOLS_CONTRACTS], "prop": "C10"},
+        {"dir": "{repo}", "pkgs": ["./internal/token"], "contracts": [TOKEN_CONTRACTS], "prop": "C10"},
+        {"dir": "{gen}/recover", "pkgs": ["./token"], "contracts": [STDLIB, TOKGEN_CONTRACTS], "prop": "C10"},
+    ],
+    "trusted_base": COMMON_TRUSTED + ["text/template expansion (the expanded token package is what is verified)"],
+    "assumptions": [
+        "that main hands the same TokenMap to the lexer, parser and token generators, and that the rendered typeMap/idMap literals are the map's contents, is checked on emitted packages by the bounded sweeps (LR validator: token.TokMap literals and action-table column order; lexer reference: ActTab numbers)",
+        "Symbols.Add is called with an argument slice that does not alias the symbol table (precondition [noalias], true at both call sites)",
+    ],
+    "explanation": "Proved for all symbol sequences: Symbols keeps a bijection between names and consecutive numbers (Add preserves it, keeps earlier numbers and adds exactly its arguments); ListTerminals is the order-preserving duplicate-free list of non-production symbols and starts with INVALID, end-of-input unless those are production names; NewTokenMap numbers the list in order with mutually inverse maps; the generated TokenMap.Id/Type are the lookups with 'unknown'/INVALID defaults.",
+}
+
+
+def framecheck_shared(run):
+    """C17: frame obligations (no write to / escape of package-level state outside init) over go/ssa on the expanded packages"""
+    import common as C, json, os
+    tool = C.ensure_tool("framecheck", "tools/framecheck")
+    tot = {"name": "FRAME no-shared-write / no-shared-escape (go/ssa)", "obligations": 0, "discharged": 0, "violations": [], "samples": [], "backend": "FRAME", "must_have_obligations": True, "carriers": []}
+    for c in ("lexonly", "recover", "recover_zip", "conflict_zip", "recover_dbg"):
+        d = run.carriers[c]
+        pk = [p for p in ("lexer", "parser", "token", "errors", "util") if os.path.isdir(os.path.join(d, p))]
+        out = os.path.join(run.work, "frame-%s.json" % c)
+        rc, o = C.sh([tool, "shared", "-dir", d, "-pkgs", ",".join("./" + p for p in pk), "-out", out], cwd=d)
+        if rc == 2 or not os.path.exists(out):
+            raise C.EngineError("framecheck failed on carrier %s:\n%s" % (c, o[-2000:]))
+        r = json.load(open(out))
+        tot["obligations"] += r["obligations"]
+        tot["discharged"] += r["discharged"]
+        tot["carriers"].append({"carrier": c, "functions": r["functions"], "package_level_variables": r["package_level_variables"]})
+        tot["samples"] += [{"carrier": c, "frame": x} for x in (r.get("samples") or [])[:3]]
+        for f in r.get("findings") or []:
+            tot["violations"].append({"id": "%s %s %s" % (f["obligation"], f["func"], f["what"]), "obligation": f["obligation"], "function": f["func"], "pos": f["pos"], "what": f["what"], "carrier": c, "input": None})
+    tot["cases"] = tot["obligations"]
+    return tot
+
+
+PROPS["C17"] = {
+    "level": "proof",
+    "prepare": prepare_expand,
+    "extra": [framecheck_shared],
+    "checker_cmd": "bin/framecheck shared -dir <expanded carrier> -pkgs ./lexer,./parser,./token,./errors,./util",
+    "trusted_base": ["Go compiler, run-time, go/types and golang.org/x/tools/go/ssa", "framecheck (tools/framecheck), the frame checker written for this task (mitigated by the seeded changes under seeded/C17-*)",
+                     "package initialisation (init functions, the -zip decoders) happens-before main by the Go memory model", "text/template expansion (the expanded packages are what is checked)"],
+    "assumptions": [
+        "data-race-freedom argument: a goroutine whose code performs no write to memory reachable from a package-level variable, and hands out no mutable reference to it, depends only on its own objects and on immutable data; interleavings are NOT explored",
+        "user-supplied code (semantic actions, Scanner implementations, Context values) is outside the claim; calls through function values are assumed not to write their arguments",
+        "fmt, strings, bytes, strconv, unicode/utf8, errors, os, io only read their arguments",
+    ],
+    "technique": "contract-based verification, frame conditions: per-function frame obligations (no write to, no escape of, package-level state) discharged by a taint analysis over go/ssa on the expanded generated packages",
+    "explanation": "Frame obligations for every function of the generated lexer, parser, token, errors and util packages (plain, -zip and debug expansions) except package initialisers: [no-shared-write] no store, map update, append/copy destination or callee-written argument derives from a package-level variable; [no-shared-escape] no mutable reference derived from a package-level variable is stored into an object, returned or kept by a callee. With both discharged every goroutine only writes its own objects, which is the part of C17 this family can carry; interleavings are not explored.",
+}
+
+
+def corpus_grammars(run):
+    import glob, os
+    gs = sorted(glob.glob(os.path.join(run.repo, "example", "*", "*.bnf")) + glob.glob(os.path.join(run.repo, "internal", "test", "*", "*.bnf")))
+    gs += sorted(glob.glob(os.path.join(os.path.dirname(os.path.dirname(__file__)), "carriers", "*.bnf")))
+    gs += sorted(glob.glob(os.path.join(os.path.dirname(os.path.dirname(__file__)), "corpus", "*.bnf")))
+    return gs
+
+
+def tree_digest(d):
+    import hashlib, os
+    h = hashlib.sha256()
+    for dp, dn, fn in sorted(os.walk(d)):
+        dn.sort()
+        for f in sorted(fn):
+            if f in ("go.mod", "g.bnf"):
+                continue
+            p = os.path.join(dp, f)
+            h.update(os.path.relpath(p, d).encode())
+            h.update(open(p, "rb").read())
+    return h.hexdigest()
+
+
+def run_gocc(run, gocc, grammar, flags, d, env=None, timeout=60):
+    import common as C, os, shutil
+    os.makedirs(d, exist_ok=True)
+    open(os.path.join(d, "go.mod"), "w").write("module gen\n\ngo 1.24\n")
+    shutil.copy(grammar, os.path.join(d, "g.bnf"))
+    e = dict(C.GOENV)
+    e.update(env or {})
+    try:
+        rc, o = C.sh([gocc] + flags + ["g.bnf"], cwd=d, env=e, timeout=timeout)
+    except Exception as ex:  # timeout
+        return -9, "timeout: %s" % ex
+    return rc, o
+
+
+def framecheck_inventory(run):
+    """C11: inventory obligations over the generator (no concurrency, no ambient input, every map range classified)"""
+    import common as C, json, os
+    tool = C.ensure_tool("framecheck", "tools/framecheck")
+    out = os.path.join(run.work, "inventory.json")
+    rc, o = C.sh([tool, "inventory", "-dir", run.repo, "-pkgs", ".", "-allow", os.path.join(C.VERIF, "contracts", "c11_map_ranges.txt"), "-out", out], cwd=run.repo)
+    if rc == 2 or not os.path.exists(out):
+        raise C.EngineError("framecheck inventory failed:\n" + o[-2000:])
+    r = json.load(open(out))
+    v = [{"id": "%s %s" % (f["obligation"], f["what"]), "obligation": f["obligation"], "function": f["func"], "pos": f["pos"], "what": f["what"], "input": None} for f in r.get("findings") or []]
+    return {"name": "FRAME inventory of nondeterminism sources (go/ast + go/types)", "obligations": r["obligations"], "discharged": r["discharged"], "violations": v,
+            "samples": [{"map_range": x} for x in (r.get("samples") or [])[:8]], "backend": "FRAME", "must_have_obligations": True, "cases": r["obligations"], "functions": r["functions"]}
+
+
+def determinism_runs(run):
+    """bounded cross-check / search for a differing pair: repeated runs with different GOMAXPROCS must be byte-identical"""
+    import expand, os
+    gocc = expand.build_gocc(run)
+    n = 4 if run.tier == "quick" else 16
+    viol, cases, samples = [], 0, []
+    for g in corpus_grammars(run):
+        for flags in ([], ["-a"]):
+            ref = None
+            for i in range(n):
+                d = os.path.join(run.work, "det", "%s-%d-%d" % (os.path.basename(g), len(flags), i))
+                rc, o = run_gocc(run, gocc, g, flags, d, env={"GOMAXPROCS": str(1 + (i % 4) * 5)})
+                cur = (rc, tree_digest(d), o if "conflict" in o.lower() else "")
+                cases += 1
+                if ref is None:
+                    ref = cur
+                elif cur != ref and len(viol) < 5:
+                    viol.append({"id": "nondeterministic output for %s %s" % (os.path.basename(g), flags), "input": {"grammar": g, "flags": flags, "runs": n}, "what": "two runs of gocc on the same grammar differ (status/digest/conflict line): %s vs %s" % (ref[:2], cur[:2])})
+            if len(samples) < 6:
+                samples.append({"grammar": os.path.basename(g), "flags": flags, "runs": n, "status": ref[0], "digest": ref[1][:12]})
+    return {"name": "REPEAT gocc runs, outputs byte-identical (bounded, not counted as proof)", "cases": cases, "evaluations": cases, "violations": viol, "samples": samples}
+
+
+PROPS["C11"] = {
+    "level": "proof",
+    "extra": [framecheck_inventory, determinism_runs],
+    "checker_cmd": "bin/framecheck inventory -dir /repo -pkgs . -allow contracts/c11_map_ranges.txt",
+    "trusted_base": ["Go compiler, run-time, go/types", "framecheck (tools/framecheck) and its category checks (mitigated by the seeded changes under seeded/C11-*)",
+                     "encoding/gob, compress/gzip (zero mtime header), go/format and text/template (sorted map ranges) are deterministic"],
+    "assumptions": [
+        "category 'sink' is established per entry by reading the function: its result reaches only stderr/stdout messages or the -v text files, never a generated .go file, the exit status or the conflict count (ItemSet.Action: only len(conflicts) is used for those); the mechanical check then confirms the loop's effects stay confined to the variables named in the entry",
+        "category 'insert' (commutative, idempotent set insertion) and 'search' (constant result) are order-insensitive by their shape; 'sorted' relies on sort.Strings being a total order on distinct keys",
+        "os.Getwd in internal/config is part of the configuration ('in the same directory')",
+    ],
+    "technique": "contract-based verification, frame/inventory obligations: every source of nondeterminism reachable in the generator (concurrency, ambient inputs, each range over a map) is an obligation discharged against a committed inventory by mechanical shape checks over go/ast+go/types",
+    "explanation": "Deductive treatment of the sources of nondeterminism: no goroutine/channel/sync/time/rand/env use in the module; each of the 20 ranges over maps is classified (sorted-before-use, commutative insert, constant search, diagnostic sink, empty by construction) and the classification is re-checked mechanically on every run, so a new unsorted map range, a removed sort, or a goroutine leaves an undischarged obligation naming the loop. Repeated gocc runs with different GOMAXPROCS are a bounded cross-check and the search for a concrete differing pair.",
+}
